@@ -135,7 +135,30 @@ static void exec(const Plan* p) {
             if (ZSTD_sizeof_DCtx(d) < sim_alloc_live_bytes()) sim_violation("sizeof_underreports", "sizeof_DCtx %zu < %zu bytes live in the allocator", ZSTD_sizeof_DCtx(d), sim_alloc_live_bytes());
             sim_probe("c14.window_accepted");
         }
-        dec_result_free(&dr); ZSTD_freeDCtx(d); break; }
+        dec_result_free(&dr);
+        /* the limit holds on a REUSED decoder too: with buffers already large enough from an accepted frame, lowering the limit
+         * (or meeting a larger window) must still refuse - the check may not hide behind "no reallocation needed" */
+        {   int const wl2 = 18 + (int)(plan_get(p, "chunk", 4096) % 5), lim2 = 14 + (int)(plan_get(p, "chunk", 4096) % (wl2 - 14)); ZSTD_CCtx* c2 = ZSTD_createCCtx(); size_t cs2; Plan dp2; DecResult d2;
+            ZSTD_CCtx_setParameter(c2, ZSTD_c_compressionLevel, 1); ZSTD_CCtx_setParameter(c2, ZSTD_c_windowLog, wl2); ZSTD_CCtx_setParameter(c2, ZSTD_c_contentSizeFlag, 0);
+            if (variant == 7) ZSTD_CCtx_loadDictionary(c2, s.dict, s.dict_size);
+            cs2 = stream_all(c2, &s, dst, cap, 1 << 16); ZSTD_freeCCtx(c2);
+            if (!ZSTD_isError(cs2)) {
+                ZSTD_DCtx_reset(d, ZSTD_reset_session_only); ZSTD_DCtx_setParameter(d, ZSTD_d_windowLogMax, 31);
+                plan_init(&dp2, "x", 1); plan_set(&dp2, "dfin_in", 3000); plan_set(&dp2, "dfin_out", 1000); sess_run_dhist(&dp2, d, dst, cs2, 0, 0, &d2);
+                if (d2.err || d2.out_size != s.in_size) sim_violation("roundtrip_error", "reused decoder, window 2^%d under limit 31: %s", wl2, d2.err ? ZSTD_getErrorName(d2.err) : "size differs");
+                dec_result_free(&d2);
+                ZSTD_DCtx_reset(d, ZSTD_reset_session_only); ZSTD_DCtx_setParameter(d, ZSTD_d_windowLogMax, lim2);
+                sess_run_dhist(&dp2, d, dst, cs2, 0, 0, &d2); plan_free(&dp2);
+                {   ZSTD_frameHeader zfh2; ZSTD_getFrameHeader(&zfh2, dst, cs2);
+                    if (zfh2.windowSize > ((unsigned long long)1 << lim2)) {
+                        if (!d2.err) sim_violation("window_limit_ignored", "reused decoder (buffers already sized for this frame): frame window %llu > limit 2^%d but streaming decompression proceeds", zfh2.windowSize, lim2);
+                        if (ZSTD_getErrorCode(d2.err) != ZSTD_error_frameParameter_windowTooLarge) sim_violation("window_limit_wrong_error", "reused decoder: frame window above the limit is reported as: %s", ZSTD_getErrorName(d2.err));
+                        sim_probe("c14.window_refused_on_reused_decoder");
+                    } else if (d2.err || d2.out_size != s.in_size) sim_violation("roundtrip_error", "reused decoder, frame window %llu within limit 2^%d: %s", zfh2.windowSize, lim2, d2.err ? ZSTD_getErrorName(d2.err) : "size differs"); }
+                dec_result_free(&d2);
+            }
+        }
+        ZSTD_freeDCtx(d); break; }
     default: {   /* sizeof_* vs accounting over a compression history */
         ZSTD_CCtx* c; ZSTD_CDict* cd; int k;
         sim_alloc_reset(); c = ZSTD_createCCtx_advanced(sess_cmem());
